@@ -616,3 +616,64 @@ Proof.
     destruct b; [change (zlen str_true) with 4|change (zlen str_false) with 5]; lia.
   - apply parse_bool_m_err_kind in E. now subst k.
 Qed.
+
+(* ------------------------------------------------------------------ printing and parsing back *)
+
+Lemma digits_val_snoc ds d : digits_val (ds ++ [d]) = 10 * digits_val ds + (d - 48).
+Proof. unfold digits_val, digits_val_from. rewrite fold_left_app. reflexivity. Qed.
+
+Lemma dec_digits_spec : forall fuel n,
+  0 <= n < 10 ^ Z.of_nat fuel -> fuel <> O ->
+  dec_digits fuel n <> [] /\ Forall digit (dec_digits fuel n) /\ digits_val (dec_digits fuel n) = n.
+Proof.
+  induction fuel as [|f IH]; intros n Hn Hf; [congruence|].
+  cbn [dec_digits]. destruct (Z.ltb_spec n 10) as [Hlt|Hge].
+  - split; [discriminate|]. split.
+    + constructor; [unfold digit; lia|constructor].
+    + unfold digits_val, digits_val_from. cbn [fold_left]. lia.
+  - assert (Hpow : 10 ^ Z.of_nat (S f) = 10 * 10 ^ Z.of_nat f).
+    { rewrite Nat2Z.inj_succ. apply Z.pow_succ_r. lia. }
+    assert (Hq : 1 <= n / 10 < 10 ^ Z.of_nat f).
+    { split; [apply Z.div_le_lower_bound; lia|apply Z.div_lt_upper_bound; lia]. }
+    assert (Hf' : f <> O).
+    { intros ->. change (10 ^ Z.of_nat 0) with 1 in Hq. lia. }
+    destruct (IH (n / 10) ltac:(lia) Hf') as (Hne & Hd & Hv).
+    pose proof (Z.mod_pos_bound n 10 ltac:(lia)) as Hm.
+    split; [intro E; apply app_eq_nil in E as [_ E]; discriminate|]. split.
+    + apply Forall_app. split; [exact Hd|]. constructor; [unfold digit; lia|constructor].
+    + rewrite digits_val_snoc, Hv. pose proof (Z.div_mod n 10 ltac:(lia)). lia.
+Qed.
+
+Lemma dec_spec n : 0 <= n -> dec n <> [] /\ Forall digit (dec n) /\ digits_val (dec n) = n.
+Proof.
+  intro Hn. unfold dec. apply dec_digits_spec; [|discriminate].
+  split; [exact Hn|].
+  destruct (Z.eq_dec n 0) as [->|Hnz].
+  - change (Z.log2 0) with 0. reflexivity.
+  - pose proof (Z.log2_spec n ltac:(lia)) as [_ Hlog].
+    pose proof (Z.log2_nonneg n) as Hl.
+    rewrite Nat2Z.inj_succ, Z2Nat.id by exact Hl.
+    eapply Z.lt_le_trans; [exact Hlog|].
+    apply Z.pow_le_mono_l. lia.
+Qed.
+
+(** every value of the type, printed in decimal, parses back to itself; every other
+    integer, printed, is rejected *)
+Theorem parse_show_int w : 4 <= w -> forall sg v,
+  parse_whole_m w sg (show_int v) = (if in_range w sg v then Some v else None).
+Proof.
+  intros Hw sg v. unfold show_int. destruct (Z.ltb_spec v 0) as [Hneg|Hpos].
+  - destruct (dec_spec (- v) ltac:(lia)) as (Hne & Hd & Hv).
+    destruct sg.
+    + rewrite (parse_whole_minus_digits w Hw (dec (- v)) Hne Hd), Hv.
+      replace (- - v) with v by lia. reflexivity.
+    + rewrite unsigned_rejects_minus by exact Hw.
+      unfold in_range. destruct (Z.leb_spec 0 v); [lia|reflexivity].
+  - destruct (dec_spec v Hpos) as (Hne & Hd & Hv).
+    rewrite (parse_whole_digits w Hw sg (dec v) Hne Hd), Hv. reflexivity.
+Qed.
+
+(** why the statements need [4 <= w]: in a 3-bit type the digit 9 itself wraps *)
+Lemma width_bound_needed :
+  parse_whole_m 3 false [57] = Some 1 /\ std_parse 3 false [57] = None.
+Proof. split; vm_compute; reflexivity. Qed.
